@@ -14,10 +14,10 @@
 struct vp_mu_ghost vp_g;
 struct vp_registry vp_reg;
 waiter vp_my_w;
-int vp_tag_C14_escalate, vp_tag_C03_wake_acq, vp_tag_C06_eval_held, vp_tag_C02_resp, vp_tag_C07_once, vp_tag_C12_sem, vp_tag_C10_cnt, vp_tag_C11_wait, vp_tag_C16_buf, vp_tag_C05_reason, vp_tag_C13_dead, vp_tag_C01_hold;
+int vp_tag_C14_escalate, vp_tag_C03_wake_acq, vp_tag_C06_eval_held, vp_tag_C02_resp, vp_tag_C07_once, vp_tag_C12_sem, vp_tag_C10_cnt, vp_tag_C11_wait, vp_tag_C16_buf, vp_tag_C05_reason, vp_tag_C13_dead, vp_tag_C01_hold, vp_tag_C04_consume, vp_tag_C08_note;
 void vp_tags_init (void) {
 	vp_tag_C14_escalate = 0; vp_tag_C03_wake_acq = 0; vp_tag_C06_eval_held = 0; vp_tag_C02_resp = 0; vp_tag_C07_once = 0; vp_tag_C12_sem = 0;
-	vp_tag_C10_cnt = 0; vp_tag_C11_wait = 0; vp_tag_C16_buf = 0; vp_tag_C05_reason = 0; vp_tag_C13_dead = 0; vp_tag_C01_hold = 0;
+	vp_tag_C10_cnt = 0; vp_tag_C11_wait = 0; vp_tag_C16_buf = 0; vp_tag_C05_reason = 0; vp_tag_C13_dead = 0; vp_tag_C01_hold = 0; vp_tag_C04_consume = 0; vp_tag_C08_note = 0;
 }
 
 /* ------------------------------------------------------------------ */
@@ -184,7 +184,11 @@ static void mu_check (unsigned viol) {
 	VP_ASSERT (!(viol & V_OBSERVER), "C16: an observer changes nothing but the spinlock bit");
 }
 
+/* VP_SEQUENTIAL (bounded queue-content groups only): no other thread acts during the call; the initial state is still arbitrary */
 static void mu_interfere (nsync_atomic_uint32_ *p) {
+#ifdef VP_SEQUENTIAL
+	(void) p; return;
+#endif
 	uint32_t before = *p;
 	uint32_t after = vp_nondet_u32 ();
 	VP_ASSUME (vp_mu_rely (before, after, &vp_g));
@@ -240,11 +244,18 @@ uint32_t vp_mu_any_word (void) {
 /* This thread's own waiting flag (set to 1 by me before I queue myself,
    cleared to 0 by whoever dequeues me: a waker, or myself on timeout).   */
 static uint32_t waiting_load (nsync_atomic_uint32_ *p, int order) {
-	/* rely: others only ever clear it */
+	/* rely: others only ever clear it - and, for a cv waiter, only after having unlinked the record */
+#ifdef VP_RG_CV
+	if (*p != 0 && (!vp_cvg.in_wait || vp_cvg.unlinked_by_other) && vp_nondet_bool ()) *p = 0;
+#else
 	if (*p != 0 && vp_nondet_bool ()) *p = 0;
+#endif
 	if (*p == 0 && vp_g.queued && (order == VP_ACQ || order == VP_ACQREL)) {
 		vp_g.queued = 0;     /* wake-up observed with acquire order */
-		vp_g.waited = 1;
+		vp_g.waited = 1;     /* ... of a wait on the mutex's queue */
+#ifdef VP_RG_CV
+		if (vp_cvg.in_wait && vp_my_w.cv_mu != NULL) vp_g.waited = 0;   /* woken from the cv itself: has not waited on the mutex */
+#endif
 	}
 	return *p;
 }
@@ -355,9 +366,84 @@ static void foreign_waiting_store (nsync_atomic_uint32_ *p, uint32_t v, int orde
 #define VP_WK_STORE(p,v,order)
 #endif
 
+/* ------------------------------------------------------------------ */
+/* The condition variable's word: CV_SPINLOCK protects the waiter list and CV_NON_EMPTY.
+   G: the spinlock is taken only when free, by a CAS with acquire order (CV_NON_EMPTY may be set in the same step);
+      it is released only by its owner, by a store with release order of a value without the spinlock bit;
+      nothing else ever writes the word.
+   R: while I own the spinlock the word does not change; otherwise anything. */
+struct vp_cv_ghost vp_cvg;
+#ifdef VP_RG_CV
+static void cv_interfere (nsync_atomic_uint32_ *p) {
+#ifdef VP_SEQUENTIAL
+	(void) p; return;
+#endif
+	uint32_t before = *p, after = vp_nondet_u32 ();
+	VP_ASSUME ((after & ~(CV_SPINLOCK | CV_NON_EMPTY)) == 0);
+	if (vp_cvg.spin) VP_ASSUME (after == before);
+	*p = after;
+}
+static int cv_cas (nsync_atomic_uint32_ *p, uint32_t o, uint32_t n, int order) {
+	cv_interfere (p);
+	if (*p != o) return 0;
+	VP_ASSERT ((o & CV_SPINLOCK) == 0 && (n & CV_SPINLOCK) != 0 && !vp_cvg.spin, "C04: the cv word is changed by compare-and-swap only to take its free spinlock");
+	VP_ASSERT (((o ^ n) & ~(CV_SPINLOCK | CV_NON_EMPTY)) == 0 && ((o & CV_NON_EMPTY) == 0 || (n & CV_NON_EMPTY) != 0), "C04: taking the cv spinlock may set CV_NON_EMPTY and changes nothing else");
+	VP_ASSERT (order == VP_ACQ || order == VP_ACQREL, "C03: taking the cv spinlock is an acquire");
+	vp_cvg.spin = 1;
+	*p = n;
+	return 1;
+}
+static uint32_t cv_load (nsync_atomic_uint32_ *p, int order) { (void) order; cv_interfere (p); return *p; }
+static void cv_store (nsync_atomic_uint32_ *p, uint32_t v, int order) {
+	cv_interfere (p);
+	VP_ASSERT (vp_cvg.spin, "C04: the cv word is stored only by the owner of its spinlock");
+	VP_ASSERT ((v & CV_SPINLOCK) == 0 && (v & ~(CV_SPINLOCK | CV_NON_EMPTY)) == 0, "C04: the owner's store releases the cv spinlock");
+	VP_ASSERT (order == VP_REL || order == VP_ACQREL, "C03: releasing the cv spinlock is a release");
+	if (vp_cvg.in_wait && (v & CV_NON_EMPTY) != 0 && !vp_cvg.self_dequeued) vp_cvg.enq_done = 1;
+	vp_cvg.spin = 0;
+	vp_cvg.sections++;
+	*p = v;
+}
+/* remove_count of this thread's waiter record: incremented, under the cv spinlock, by whoever unlinks the record */
+/* environment step, possible before EVERY atomic step of this thread: a waker (cv signal / broadcast), holding the cv spinlock,
+   unlinks this thread's record from the cv queue: remove_count moves, and the record may be transferred to the mutex's queue */
+static void cv_env_step (void) {
+#ifdef VP_SEQUENTIAL
+	return;
+#endif
+	if (vp_cvg.in_wait && vp_cvg.my_remove_count != NULL && vp_cvg.enq_done && !vp_cvg.spin && !vp_cvg.unlinked_by_other &&
+	    !vp_cvg.self_dequeued && vp_g.queued && vp_nondet_bool ()) {
+		*vp_cvg.my_remove_count = *vp_cvg.my_remove_count + 1u;
+		vp_cvg.unlinked_by_other = 1;
+		if (vp_nondet_bool ()) vp_my_w.cv_mu = NULL;
+	}
+}
+static uint32_t rc_load (nsync_atomic_uint32_ *p, int order) { (void) order; return *p; }
+static int rc_cas (nsync_atomic_uint32_ *p, uint32_t o, uint32_t n, int order) {
+	(void) order;
+	(void) rc_load (p, VP_RLX);
+	if (*p != o) return 0;
+	VP_ASSERT (vp_cvg.spin && n == o + 1u, "C04: remove_count is incremented only under the cv spinlock, by one");
+	vp_cvg.self_dequeued = 1;
+	*p = n;
+	return 1;
+}
+#define VP_CV_ENV() cv_env_step ()
+#define VP_CV_CAS(p,o,n,order) if ((p) == vp_reg.cv_word) return cv_cas ((p), (o), (n), (order)); if ((p) == vp_cvg.my_remove_count) return rc_cas ((p), (o), (n), (order))
+#define VP_CV_LOAD(p,order) if ((p) == vp_reg.cv_word) return cv_load ((p), (order)); if ((p) == vp_cvg.my_remove_count) return rc_load ((p), (order))
+#define VP_CV_STORE(p,v,order) if ((p) == vp_reg.cv_word) { cv_store ((p), (v), (order)); return; }
+#else
+#define VP_CV_ENV()
+#define VP_CV_CAS(p,o,n,order)
+#define VP_CV_LOAD(p,order)
+#define VP_CV_STORE(p,v,order)
+#endif
+
 void vp_reg_clear (void) {
 	vp_reg.mu_word = NULL; vp_reg.my_waiting = NULL; vp_reg.cv_word = NULL; vp_reg.once_word = NULL;
 	vp_reg.sem_word = NULL; vp_reg.value_word = NULL; vp_reg.notified_word = NULL;
+	vp_cvg.spin = 0; vp_cvg.in_wait = 0; vp_cvg.enq_done = 0; vp_cvg.unlinked_by_other = 0; vp_cvg.self_dequeued = 0; vp_cvg.sections = 0;
+	vp_cvg.my_remove_count = NULL;
 #ifdef VP_RG_WAKER
 	{ int i; for (i = 0; i != VP_WK_MAX; i++) vp_wk.rec[i] = NULL; }
 	vp_wk.cleared = 0; vp_wk.posted = 0; vp_wk.pending = 0; vp_wk.last_cleared = NULL; vp_wk.lock = NULL;
@@ -365,28 +451,38 @@ void vp_reg_clear (void) {
 }
 
 int vp_cas (nsync_atomic_uint32_ *p, uint32_t o, uint32_t n, int order) {
+	VP_CV_ENV ();
 	VP_MU_CAS (p, o, n, order);
 	VP_SEM_CAS (p, o, n, order);
 	VP_ONCE_CAS (p, o, n, order);
 	VP_CNT_CAS (p, o, n, order);
+	VP_CV_CAS (p, o, n, order);
+#ifndef VP_SEQUENTIAL
 	if (p != vp_reg.my_waiting) *p = vp_nondet_u32 ();   /* unregistered: any environment */
+#endif
 	if (*p != o) return 0;
 	*p = n;
 	return 1;
 }
 uint32_t vp_load (nsync_atomic_uint32_ *p, int order) {
+	VP_CV_ENV ();
 	VP_MU_LOAD (p, order);
 	VP_SEM_LOAD (p, order);
 	VP_ONCE_LOAD (p, order);
 	VP_CNT_LOAD (p, order);
+	VP_CV_LOAD (p, order);
+#ifndef VP_SEQUENTIAL
 	*p = vp_nondet_u32 ();
+#endif
 	return *p;
 }
 void vp_store (nsync_atomic_uint32_ *p, uint32_t v, int order) {
+	VP_CV_ENV ();
 	VP_MU_STORE (p, v, order);
 	VP_SEM_STORE (p, v, order);
 	VP_ONCE_STORE (p, v, order);
 	VP_CNT_STORE (p, v, order);
+	VP_CV_STORE (p, v, order);
 	VP_WK_STORE (p, v, order);
 	*p = v;
 }
